@@ -177,7 +177,20 @@ def rule_carry_state(ctx):
             res.undecided("%s : class-count-update" % key, "no update of class_count found (fail closed)", fn_loc(fn))
         for y in cc:
             if y.get("k") == "Assign":
-                res.violate("%s : class-count-replaced" % key, "class_count is assigned, not accumulated: the count of earlier batches is lost and the priors follow the last batch only", fn_loc(fn, y["ln"]))
+                # `count = old + new` written out, or a value handed back by a helper that was given the old state, still
+                # accumulates; only a right-hand side that cannot contain the old count replaces it
+                rhs_ = [y["r"]]
+                for z in walk(y["r"]):
+                    if z.get("k") == "Path" and z.get("local") in L:
+                        rhs_.append(L[z["local"]])
+                reads_old = any(z.get("k") == "Field" and z.get("name") == "class_count" for e_ in rhs_ for z in walk(e_))
+                via_helper = any(z.get("k") in ("Call", "MethodCall") and any(w.get("k") == "Path" and (w.get("name") or "").startswith(("class_info", "info")) for a_ in z.get("args", []) for w in walk(a_)) for e_ in rhs_ for z in walk(e_))
+                if reads_old:
+                    res.ok()
+                elif via_helper:
+                    res.undecided("%s : class-count-through-helper" % key, "class_count is assigned from the result of a helper that was handed the old state; whether it adds the old count is not followed (fail closed)", fn_loc(fn, y["ln"]))
+                else:
+                    res.violate("%s : class-count-replaced" % key, "class_count is assigned, not accumulated: the count of earlier batches is lost and the priors follow the last batch only", fn_loc(fn, y["ln"]))
                 continue
             if y["op"] != "+":
                 res.violate("%s : class-count-op" % key, "class_count is updated with `%s=`" % y["op"], fn_loc(fn, y["ln"]))
